@@ -481,3 +481,209 @@ def _(self, other):
 @c_sub.canary('canary:nothing-removed')
 def _(self, other, result):
     return result.ranges == self.ranges
+
+
+# ====================================================================================
+# bounded stage B1: operators on Ranges objects with values, against finite sets of grid cells
+from pyvc.bounded import Stage
+import itertools as _it
+
+
+def _rects(n):
+    out = []
+    for c1 in range(1, n + 1):
+        for c2 in range(c1, n + 1):
+            for r1 in range(1, n + 1):
+                for r2 in range(r1, n + 1):
+                    out.append((c1, r1, c2, r2))
+    return out
+
+
+def _name(rc, sheet=''):
+    c1, r1, c2, r2 = rc
+    a, b = '%s%d' % ('ABCDEFG'[c1 - 1], r1), '%s%d' % ('ABCDEFG'[c2 - 1], r2)
+    return (sheet + '!' if sheet else '') + (a if a == b else a + ':' + b)
+
+
+def _cells(rc):
+    c1, r1, c2, r2 = rc
+    return {(c, r) for c in range(c1, c2 + 1) for r in range(r1, r2 + 1)}
+
+
+def _val(c, r):
+    return 100 * r + c
+
+
+def _mkr(rcs, sheet=''):
+    import numpy as np
+    from formulas.ranges import Ranges
+    rng = Ranges()
+    for rc in rcs:
+        c1, r1, c2, r2 = rc
+        rng.push(_name(rc, sheet), np.asarray([[_val(c, r) for c in range(c1, c2 + 1)] for r in range(r1, r2 + 1)], object))
+    return rng
+
+
+def _area_cells(area):
+    n1, n2 = max(int(area['n1']), 1), int(area['n2'])
+    r1, r2 = max(int(area['r1']), 1), int(area['r2'])
+    return [(c, r) for r in range(r1, r2 + 1) for c in range(n1, n2 + 1)]
+
+
+def _check_ops(case):
+    import numpy as np
+    from formulas.ranges import Ranges
+    from formulas.errors import InvalidRangeError
+    from formulas.tokens.operand import NULL
+    kind, A, B = case
+    a, b = _mkr(A), _mkr(B)
+    ca = [c for rc in A for c in sorted(_cells(rc))]
+    cb = [c for rc in B for c in sorted(_cells(rc))]
+    sa, sb = set(ca), set(cb)
+    try:
+        if kind == 'and':
+            res = a & b
+            want = [sorted(_cells(x) & _cells(y), key=lambda t: (t[1], t[0])) for y in B for x in A if _cells(x) & _cells(y)]
+            got = [_area_cells(z) for z in res.ranges]
+            if got != want:
+                return '%s & %s covers %r, the common cells per pair of areas are %r' % (a, b, got, want)
+            v = res.value
+            if not want:
+                if not (v.shape == (1, 1) and v[0, 0] is NULL):
+                    return 'empty intersection %s & %s has value %r, expected #NULL!' % (a, b, v.tolist())
+            else:
+                flat = [x for w in want for x in w]
+                exp = [_val(c, r) for c, r in flat]
+                gotv = np.asarray(v, object).ravel().tolist()
+                if sorted(gotv) != sorted(exp) or (len(want) == 1 and gotv != exp):
+                    return 'values of %s & %s are %r, the cells hold %r' % (a, b, gotv, exp)
+        elif kind == 'add':
+            res = a + b
+            cs = [c for c, r in sa | sb]
+            rs = [r for c, r in sa | sb]
+            box = (min(cs), min(rs), max(cs), max(rs))
+            got = [_area_cells(z) for z in res.ranges]
+            want = [sorted(_cells(box), key=lambda t: (t[1], t[0]))]
+            if got != want or res.ranges[0]['name'] != _name(box):
+                return '%s : %s is %s, the bounding rectangle is %s' % (a, b, res, _name(box))
+            v = np.asarray(res.value, object)
+            for (c, r) in want[0]:
+                x = v[r - box[1], c - box[0]]
+                if (c, r) in sa | sb:
+                    if x != _val(c, r):
+                        return 'value of cell %s%d through %s : %s is %r, the cell holds %r' % ('ABCDEFG'[c - 1], r, a, b, x, _val(c, r))
+        elif kind == 'or':
+            res = a | b
+            got = [_area_cells(z) for z in res.ranges]
+            want = [sorted(_cells(x), key=lambda t: (t[1], t[0])) for x in list(A) + list(B)]
+            if got != want:
+                return '%s , %s has areas %r, expected every operand area in order %r' % (a, b, got, want)
+            gotv = sorted(np.asarray(res.value, object).ravel().tolist())
+            exp = sorted(_val(c, r) for w in want for c, r in w)
+            if gotv != exp:
+                return 'values of %s , %s are %r, each cell once per covering area gives %r' % (a, b, gotv, exp)
+        elif kind == 'sub':
+            res = a - b
+            got = [x for z in res.ranges for x in _area_cells(z)]
+            if len(got) != len(set(got)):
+                return '%s - %s = %s covers a cell twice' % (a, b, res)
+            if set(got) != sa - sb:
+                return '%s - %s = %s covers %r, expected %r' % (a, b, res, sorted(set(got)), sorted(sa - sb))
+            for z in res.ranges:
+                back = Ranges.get_range(z['name'])
+                if _area_cells(back) != _area_cells(z):
+                    return '%s - %s = %s: area named %r reads back as other cells' % (a, b, res, z['name'])
+        elif kind == 'simplify':
+            res = a.simplify()
+            got = [x for z in res.ranges for x in _area_cells(z)]
+            if len(got) != len(set(got)):
+                return 'simplify(%s) = %s covers a cell twice' % (a, res)
+            if set(got) != sa:
+                return 'simplify(%s) = %s covers %r, expected %r' % (a, res, sorted(set(got)), sorted(sa))
+    except InvalidRangeError:
+        return 'raised InvalidRangeError on one sheet'
+    except Exception as ex:
+        return '%s of %r, %r raised %s: %s' % (kind, A, B, type(ex).__name__, str(ex)[:80])
+    return None
+
+
+def _ops_cases(tier, rng):
+    n = 4 if tier == 'quick' else 5
+    R = _rects(n)
+    cases = []
+    pairs = list(_it.product(R, R))
+    if tier == 'quick':
+        pairs = pairs[::3]
+    for x, y in pairs:
+        for kind in ('and', 'add', 'or', 'sub'):
+            cases.append((kind, (x,), (y,)))
+    k = 1500 if tier == 'quick' else 30000
+    for _ in range(k):
+        A = tuple(rng.choice(R) for _ in range(rng.randrange(1, 4)))
+        B = tuple(rng.choice(R) for _ in range(rng.randrange(1, 4)))
+        cases.append((rng.choice(['and', 'add', 'or', 'sub', 'simplify']), A, B))
+    return cases
+
+
+def _formula_cases(tier, rng):
+    R = _rects(3)
+    out = []
+    for _ in range(150 if tier == 'quick' else 3000):
+        out.append(('formula', rng.choice(R), rng.choice(R), rng.choice([' ', ':', ','])))
+    return out
+
+
+def _check_formula(case):
+    """=SUM(a op b) through the parser and the compiled function, cells given as inputs."""
+    import numpy as np
+    import formulas
+    from formulas.tokens.operand import NULL
+    _, x, y, op = case
+    if op == ',':
+        text = '=SUM((%s,%s))' % (_name(x), _name(y))
+    elif op == ':':
+        if x[:2] == x[2:]:
+            return None        # 'B3:A3' would be one (possibly reversed) range token for the lexer, not the ':' operator
+        text = '=SUM(%s:%s)' % (_name(x), _name(y))
+    else:
+        text = '=SUM(%s %s)' % (_name(x), _name(y))
+    cx, cy = _cells(x), _cells(y)
+    if op == ' ':
+        cells = sorted(cx & cy)
+        want = float(sum(_val(c, r) for c, r in cells)) if cells else NULL
+    elif op == ':':
+        cs = [c for c, r in cx | cy]
+        rs = [r for c, r in cx | cy]
+        cells = sorted(_cells((min(cs), min(rs), max(cs), max(rs))))
+        want = float(sum(_val(c, r) for c, r in cells))
+    else:
+        want = float(sum(_val(c, r) for c, r in sorted(cx)) + sum(_val(c, r) for c, r in sorted(cy)))
+    try:
+        f = formulas.Parser().ast(text)[1].compile()
+        from formulas.ranges import Ranges
+        args = []
+        for k, rng_ in f.inputs.items():
+            inp = Ranges()
+            for area in rng_.ranges:
+                rows = {}
+                for c, r in _area_cells(area):
+                    rows.setdefault(r, []).append(_val(c, r))
+                inp.push(area['name'], np.asarray([rows[r] for r in sorted(rows)], object))
+            args.append(inp)
+        got = np.asarray(f(*args), object).ravel()[0]
+    except Exception as ex:
+        return '%s raised %s: %s' % (text, type(ex).__name__, str(ex)[:80])
+    ok = (got is want) if want is NULL else (not isinstance(got, str) and float(got) == want)
+    return None if ok else '%s = %r, the cells of the combined reference sum to %r' % (text, got, want)
+
+
+BOUNDED = [
+    Stage('B1:reference-operators-on-a-small-grid', 'C06', _ops_cases, _check_ops,
+          'intersection, range, union and difference for every 3rd (quick) / every (thorough) ordered pair of rectangles of a 4x4 / 5x5 grid '
+          '(100 / 225 rectangles), plus random multi-area operands (1..3 areas each; also simplify): covered cells against finite cell sets, '
+          'values position by position / once per covering area, #NULL! for an empty intersection, read-back of the area names',
+          max_report=20),
+    Stage('B1:reference-operators-in-formulas', 'C06', _formula_cases, _check_formula,
+          '=SUM(a op b) for random rectangle pairs of a 3x3 grid and the three reference operators through Parser / compile (150 quick / 3000 thorough)',
+          max_report=20),
+]
